@@ -58,9 +58,12 @@ def define():
         views("None", "none", "stack", "Q16", off=off, tier="quick" if off != 3 else "rot2")
         views("None", "none", "stack", "A32", off=off, tier="rot2")
         views("None", "none", "stackn", "A64", off=off, tier="rot2")
-        aligned_use("none", "stack", "H2", off=off, tier="quick" if off == 1 else "rot2")
-        aligned_use("none", "stack", "W8D", off=off, tier="rot2")   # 200-300 s each: tuning.json leaves them to the thorough tier
-        aligned_use("none", "stackn", "H2", off=off, tier="rot2")
+        # typed writes into inline storage of a vector placed in the arena cost 200-300+ s each (the whole vector object is
+        # copied into the arena): thorough tier only. The cheap views_* instances above decide the pointer identities and
+        # the alignment at every offset in the every-change tier.
+        aligned_use("none", "stack", "H2", off=off, tier="thorough")
+        aligned_use("none", "stack", "W8D", off=off, tier="thorough")
+        aligned_use("none", "stackn", "H2", off=off, tier="thorough")
     aligned_use("none", "heap", "A32")
     # C13 quick
     for i, a in enumerate(ACCS):
